@@ -1,4 +1,316 @@
-import PieModel.Graph.Model
+/-
+Property C11: every query answers according to the true edge set: direct-edge and
+transitive-reachability tests, incoming and outgoing adjacency (mutually symmetric, iterated in
+order of first insertion, carrying the data given at that insertion), descendant iterators
+(exactly the reachable nodes, each once, the sorted variant in ascending topological rank) and
+topological comparison.  Removing a node, an edge or all outgoing edges of a node removes exactly
+those edges and their data and nothing else.
+
+Quantifier: all finite operation sequences (`Dag.run ops`), all nodes; the effect theorems hold
+for every graph satisfying the invariant, hence (`C11_inv_reachable`) for every reachable graph.
+
+Property statements only; the proofs are in `PieModel/Graph/{Frame*,Queries,Descendants,Refine}.lean`.
+-/
+import PieModel.Graph.Refine
+
 namespace PieModel
-theorem C11_placeholder : (Dag.empty : Dag Nat Nat).last = 0 := rfl
+open Dag
+
+variable {N E : Type}
+
+/-- Every reachable graph satisfies the invariant (C10), so the theorems below that assume
+`g.Inv` apply after every operation of every operation sequence. -/
+theorem C11_inv_reachable (ops : List (GOp N E)) : (Dag.run ops).Inv := C10_inv_reachable ops
+
+/-! ### queries -/
+
+/-- `contains_edge` answers according to the edge set. -/
+theorem C11_containsEdge_iff (ops : List (GOp N E)) (a b : Nat) :
+    (Dag.run ops).containsEdge a b = true ↔ (Dag.run ops).HasEdge a b :=
+  containsEdge_iff (C10_inv_reachable ops).toWF a b
+
+/-- An edge has data exactly when it is in the edge set. -/
+theorem C11_getEdgeData_isSome_iff (ops : List (GOp N E)) (a b : Nat) :
+    ((Dag.run ops).getEdgeData a b).isSome = true ↔ (Dag.run ops).HasEdge a b :=
+  getEdgeData_isSome_iff (C10_inv_reachable ops).toWF a b
+
+/-- `contains_transitive_edge` answers according to reachability. -/
+theorem C11_containsTransitiveEdge_iff (ops : List (GOp N E)) (a b : Nat) :
+    (Dag.run ops).containsTransitiveEdge a b = true ↔ (Dag.run ops).Reach a b :=
+  containsTransitiveEdge_iff (C10_inv_reachable ops) a b
+
+/-- Outgoing and incoming adjacency are mutually symmetric, both are the edge set. -/
+theorem C11_adjacency_symmetric (ops : List (GOp N E)) (s t : Nat) :
+    (t ∈ (Dag.run ops).outgoingEdgeNodes s ↔ s ∈ (Dag.run ops).incomingEdgeNodes t) ∧
+    (t ∈ (Dag.run ops).outgoingEdgeNodes s ↔ (Dag.run ops).HasEdge s t) :=
+  ⟨adjacency_symmetric (C10_inv_reachable ops).toWF s t, Iff.rfl⟩
+
+/-- Adjacency lists have no duplicates. -/
+theorem C11_adjacency_nodup (ops : List (GOp N E)) (n : Nat) :
+    ((Dag.run ops).outgoingEdgeNodes n).Nodup ∧ ((Dag.run ops).incomingEdgeNodes n).Nodup :=
+  ⟨(C10_inv_reachable ops).children_nodup n, (C10_inv_reachable ops).parents_nodup n⟩
+
+/-- The outgoing iterators lose nothing: same nodes in the same order as `outgoingEdgeNodes`,
+every pair carries the data of its edge, and the data iterators are the corresponding maps. -/
+theorem C11_outgoing_complete (ops : List (GOp N E)) (s : Nat) :
+    ((Dag.run ops).outgoingEdges s).map (·.1) = (Dag.run ops).outgoingEdgeNodes s ∧
+    (∀ c d, (c, d) ∈ (Dag.run ops).outgoingEdges s ↔ (Dag.run ops).getEdgeData s c = some d) ∧
+    ((Dag.run ops).outgoingEdges s).map (fun p => some p.2) =
+      ((Dag.run ops).outgoingEdgeNodes s).map ((Dag.run ops).getEdgeData s) ∧
+    (Dag.run ops).outgoingEdgeData s = ((Dag.run ops).outgoingEdges s).map (·.2) ∧
+    ((Dag.run ops).outgoingEdgeNodeData s).map some =
+      ((Dag.run ops).outgoingEdgeNodes s).map (Dag.run ops).getNodeData :=
+  have h := (C10_inv_reachable ops).toWF
+  ⟨outgoingEdges_map_fst h s, mem_outgoingEdges h s, outgoingEdges_map_snd h s, rfl,
+    outgoingEdgeNodeData_map_some h s⟩
+
+/-- The same for the incoming iterators. -/
+theorem C11_incoming_complete (ops : List (GOp N E)) (t : Nat) :
+    ((Dag.run ops).incomingEdges t).map (·.1) = (Dag.run ops).incomingEdgeNodes t ∧
+    (∀ p d, (p, d) ∈ (Dag.run ops).incomingEdges t ↔ (Dag.run ops).getEdgeData p t = some d) ∧
+    ((Dag.run ops).incomingEdges t).map (fun p => some p.2) =
+      ((Dag.run ops).incomingEdgeNodes t).map (fun p => (Dag.run ops).getEdgeData p t) ∧
+    (Dag.run ops).incomingEdgeData t = ((Dag.run ops).incomingEdges t).map (·.2) ∧
+    ((Dag.run ops).incomingEdgeNodeData t).map some =
+      ((Dag.run ops).incomingEdgeNodes t).map (Dag.run ops).getNodeData :=
+  have h := (C10_inv_reachable ops).toWF
+  ⟨incomingEdges_map_fst h t, mem_incomingEdges h t, incomingEdges_map_snd h t, rfl,
+    incomingEdgeNodeData_map_some h t⟩
+
+/-- `descendants_unsorted` of a live node: exactly the reachable nodes, each once, each with its
+rank; of a node that is not live: an error. -/
+theorem C11_descendantsUnsorted_spec (ops : List (GOp N E)) (n : Nat) :
+    ((Dag.run ops).containsNode n = true →
+      ∃ l, (Dag.run ops).descendantsUnsorted n = some l ∧ (l.map (·.2)).Nodup ∧
+        (∀ m, m ∈ l.map (·.2) ↔ (Dag.run ops).Reach n m) ∧
+        ∀ p ∈ l, p.1 = (Dag.run ops).topoOf p.2) ∧
+    ((Dag.run ops).descendantsUnsorted n = none ↔ (Dag.run ops).containsNode n = false) :=
+  ⟨fun hn => descendantsUnsorted_spec (C10_inv_reachable ops).toWF hn,
+    descendantsUnsorted_eq_none_iff _ n⟩
+
+/-- `descendants` of a live node: exactly the reachable nodes, each once, in ascending rank;
+of a node that is not live: an error. -/
+theorem C11_descendants_spec (ops : List (GOp N E)) (n : Nat) :
+    ((Dag.run ops).containsNode n = true →
+      ∃ l, (Dag.run ops).descendants n = some l ∧ l.Nodup ∧
+        (∀ m, m ∈ l ↔ (Dag.run ops).Reach n m) ∧
+        l.Pairwise (fun a b => (Dag.run ops).topoOf a < (Dag.run ops).topoOf b)) ∧
+    ((Dag.run ops).descendants n = none ↔ (Dag.run ops).containsNode n = false) :=
+  ⟨fun hn => descendants_spec (C10_inv_reachable ops) hn, descendants_eq_none_iff _ n⟩
+
+/-- `topo_cmp` compares ranks; it is undefined exactly when one of the nodes is not live, and it
+is consistent with reachability. -/
+theorem C11_topoCmp_eq (ops : List (GOp N E)) (a b : Nat) :
+    ((Dag.run ops).containsNode a = true → (Dag.run ops).containsNode b = true →
+      (Dag.run ops).topoCmp a b =
+        some (compare ((Dag.run ops).topoOf a) ((Dag.run ops).topoOf b))) ∧
+    ((Dag.run ops).topoCmp a b = none ↔
+      ((Dag.run ops).containsNode a = false ∨ (Dag.run ops).containsNode b = false)) ∧
+    ((Dag.run ops).Reach a b → (Dag.run ops).topoCmp a b = some .lt) :=
+  ⟨fun ha hb => topoCmp_eq _ ha hb, topoCmp_eq_none_iff _ a b,
+    fun hr => topoCmp_of_reach (C10_inv_reachable ops) hr⟩
+
+/-! ### effect of the mutating operations -/
+
+/-- `addNode`: the new id is fresh, appended to the ids, has the given data and no edges; nothing
+else changes. -/
+theorem C11_addNode_exact (g : Dag N E) (h : g.Inv) (d : N) :
+    (g.addNode d).2 = g.next ∧ g.containsNode g.next = false ∧
+    (g.addNode d).1.ids = g.ids ++ [g.next] ∧
+    (∀ x, (g.addNode d).1.childrenOf x = g.childrenOf x) ∧
+    (∀ x, (g.addNode d).1.parentsOf x = g.parentsOf x) ∧
+    (g.addNode d).1.childrenOf g.next = [] ∧ (g.addNode d).1.parentsOf g.next = [] ∧
+    (∀ a b, (g.addNode d).1.getEdgeData a b = g.getEdgeData a b) ∧
+    (∀ x, (g.addNode d).1.getNodeData x = if x = g.next then some d else g.getNodeData x) :=
+  ⟨rfl, h.not_live_next, ids_addNode g d, childrenOf_addNode d h.toWF, parentsOf_addNode d h.toWF,
+    childrenOf_addNode_new d h.toWF, parentsOf_addNode_new d h.toWF, fun _ _ => rfl,
+    getNodeData_addNode d h.toWF⟩
+
+/-- The verdict of `addEdge` (`.error`: see `C10_addEdge_cycle_iff`, `C10_addEdge_missing_iff`). -/
+theorem C11_addEdge_verdict (g : Dag N E) (h : g.Inv) (s t : Nat) (d : E) :
+    ((g.addEdge s t d).2 = .ok false ↔ g.HasEdge s t) ∧
+    ((g.addEdge s t d).2 = .ok true ↔
+      (g.containsNode s = true ∧ g.containsNode t = true ∧ s ≠ t ∧ ¬ g.HasEdge s t ∧
+        ¬ g.Reach t s)) :=
+  ⟨addEdge_ok_false_iff h s t d, addEdge_ok_true_iff h s t d⟩
+
+/-- A new edge is appended to the children of `s` and to the parents of `t`, its data is stored;
+no other adjacency list, edge datum, node datum or id changes (only ranks may). -/
+theorem C11_addEdge_new (g : Dag N E) (h : g.Inv) (s t : Nat) (d : E)
+    (hr : (g.addEdge s t d).2 = .ok true) :
+    (∀ x, (g.addEdge s t d).1.childrenOf x =
+      if x = s then g.childrenOf x ++ [t] else g.childrenOf x) ∧
+    (∀ x, (g.addEdge s t d).1.parentsOf x =
+      if x = t then g.parentsOf x ++ [s] else g.parentsOf x) ∧
+    (∀ a b, (g.addEdge s t d).1.getEdgeData a b =
+      if a = s ∧ b = t then some d else g.getEdgeData a b) ∧
+    (∀ x, (g.addEdge s t d).1.getNodeData x = g.getNodeData x) ∧
+    (g.addEdge s t d).1.ids = g.ids :=
+  ⟨childrenOf_addEdge_new h hr, parentsOf_addEdge_new h hr, getEdgeData_addEdge_new h hr,
+    getNodeData_addEdge h s t d, ids_addEdge h s t d⟩
+
+/-- Re-inserting an existing edge changes nothing: position in both adjacency lists *and* data
+are kept (more generally, any result other than `.ok true` leaves the graph as it was). -/
+theorem C11_addEdge_existing_noop (g : Dag N E) (h : g.Inv) (s t : Nat) (d : E) :
+    (g.HasEdge s t → g.addEdge s t d = (g, .ok false)) ∧
+    ((g.addEdge s t d).2 ≠ .ok true → (g.addEdge s t d).1 = g) :=
+  ⟨fun he => addEdge_existing_noop h d he, fun hr => addEdge_fst_of_ne_ok_true h hr⟩
+
+/-- `removeEdge` returns the data of the edge (`none`, and an unchanged graph, if there is no such
+edge) and removes exactly that edge and its data. -/
+theorem C11_removeEdge_exact (g : Dag N E) (h : g.Inv) (s t : Nat) :
+    (g.removeEdge s t).2 = g.getEdgeData s t ∧
+    (¬ g.HasEdge s t → g.removeEdge s t = (g, none)) ∧
+    (∀ x, (g.removeEdge s t).1.childrenOf x =
+      if x = s then (g.childrenOf x).erase t else g.childrenOf x) ∧
+    (∀ x, (g.removeEdge s t).1.parentsOf x =
+      if x = t then (g.parentsOf x).erase s else g.parentsOf x) ∧
+    (∀ a b, (g.removeEdge s t).1.getEdgeData a b =
+      if a = s ∧ b = t then none else g.getEdgeData a b) ∧
+    (∀ x, (g.removeEdge s t).1.getNodeData x = g.getNodeData x) ∧
+    (g.removeEdge s t).1.ids = g.ids ∧ (g.removeEdge s t).1.ranks = g.ranks :=
+  ⟨removeEdge_snd h.toWF s t, fun hc => removeEdge_of_not_edge g hc,
+    childrenOf_removeEdge h.toWF s t, parentsOf_removeEdge h.toWF s t,
+    getEdgeData_removeEdge h.toWF s t, getNodeData_removeEdge g s t, ids_removeEdge g s t,
+    ranks_removeEdge g s t⟩
+
+/-- `removeOutgoingEdgesOfNode` returns all outgoing edges with their data (`none` if there are
+none, in particular if the node is not live) and removes exactly those edges and their data. -/
+theorem C11_removeOutgoing_exact (g : Dag N E) (h : g.Inv) (s : Nat) :
+    (g.removeOutgoingEdgesOfNode s).2 =
+      (if g.childrenOf s = [] then none else some (g.outgoingEdges s)) ∧
+    ((g.removeOutgoingEdgesOfNode s).2 = some (g.outgoingEdges s) ↔
+      g.containsNode s = true ∧ g.childrenOf s ≠ []) ∧
+    (∀ x, (g.removeOutgoingEdgesOfNode s).1.childrenOf x = if x = s then [] else g.childrenOf x) ∧
+    (∀ x, (g.removeOutgoingEdgesOfNode s).1.parentsOf x = (g.parentsOf x).erase s) ∧
+    (∀ a b, (g.removeOutgoingEdgesOfNode s).1.getEdgeData a b =
+      if a = s then none else g.getEdgeData a b) ∧
+    (∀ x, (g.removeOutgoingEdgesOfNode s).1.getNodeData x = g.getNodeData x) ∧
+    (g.removeOutgoingEdgesOfNode s).1.ids = g.ids ∧
+    (g.removeOutgoingEdgesOfNode s).1.ranks = g.ranks :=
+  ⟨removeOutgoing_snd g s, removeOutgoing_snd_isSome_iff g s, childrenOf_removeOutgoing h.toWF s,
+    parentsOf_removeOutgoing h.toWF s, getEdgeData_removeOutgoing h.toWF s,
+    getNodeData_removeOutgoing h.toWF s, ids_removeOutgoing g s, ranks_removeOutgoing g s⟩
+
+/-- `removeNode` removes the node, erases it from every adjacency list, removes exactly the edge
+data with that endpoint, and keeps all other node data. -/
+theorem C11_removeNode_exact (g : Dag N E) (h : g.Inv) (n : Nat) :
+    (g.removeNode n).2 = g.containsNode n ∧
+    (g.removeNode n).1.ids = g.ids.erase n ∧
+    (∀ x, (g.removeNode n).1.containsNode x = if x = n then false else g.containsNode x) ∧
+    (∀ x, (g.removeNode n).1.childrenOf x = if x = n then [] else (g.childrenOf x).erase n) ∧
+    (∀ x, (g.removeNode n).1.parentsOf x = if x = n then [] else (g.parentsOf x).erase n) ∧
+    (∀ a b, (g.removeNode n).1.getEdgeData a b =
+      if a = n ∨ b = n then none else g.getEdgeData a b) ∧
+    (∀ x, (g.removeNode n).1.getNodeData x = if x = n then none else g.getNodeData x) :=
+  ⟨removeNode_snd g n, ids_removeNode g n, containsNode_removeNode h.toWF n,
+    childrenOf_removeNode h.toWF n, parentsOf_removeNode h.toWF n, getEdgeData_removeNode h.toWF n,
+    getNodeData_removeNode h.toWF n⟩
+
+/-- `removeNode` preserves the relative rank order of the remaining nodes. -/
+theorem C11_removeNode_rank_order (g : Dag N E) (h : g.Inv) (n a b : Nat) (ha : a ≠ n) (hb : b ≠ n)
+    (hla : g.containsNode a = true) (hlb : g.containsNode b = true) :
+    ((g.removeNode n).1.topoOf a < (g.removeNode n).1.topoOf b ↔ g.topoOf a < g.topoOf b) ∧
+    (g.removeNode n).1.topoCmp a b = g.topoCmp a b := by
+  refine ⟨topoOf_removeNode_lt_iff h.toWF n ha hb hla hlb, ?_⟩
+  have hla' : (g.removeNode n).1.containsNode a = true := by
+    rw [containsNode_removeNode h.toWF, if_neg ha]; exact hla
+  have hlb' : (g.removeNode n).1.containsNode b = true := by
+    rw [containsNode_removeNode h.toWF, if_neg hb]; exact hlb
+  rw [topoCmp_eq _ hla' hlb', topoCmp_eq _ hla hlb,
+    compare_topoOf_removeNode h.toWF n ha hb hla hlb]
+
+/-- `setNodeData` changes only that datum (if the node is live). -/
+theorem C11_setNodeData_exact (g : Dag N E) (n : Nat) (d : N) :
+    (∀ x, (g.setNodeData n d).getNodeData x =
+      if x = n ∧ g.containsNode n = true then some d else g.getNodeData x) ∧
+    (∀ x, (g.setNodeData n d).childrenOf x = g.childrenOf x) ∧
+    (∀ x, (g.setNodeData n d).parentsOf x = g.parentsOf x) ∧
+    (∀ a b, (g.setNodeData n d).getEdgeData a b = g.getEdgeData a b) ∧
+    (g.setNodeData n d).ids = g.ids ∧ (g.setNodeData n d).ranks = g.ranks :=
+  ⟨getNodeData_setNodeData g n d, childrenOf_setNodeData g n d, parentsOf_setNodeData g n d,
+    fun _ _ => rfl, ids_setNodeData g n d, ranks_setNodeData g n d⟩
+
+/-- `setEdgeData` changes only that datum (if the edge is present). -/
+theorem C11_setEdgeData_exact (g : Dag N E) (s t : Nat) (d : E) :
+    (∀ a b, (g.setEdgeData s t d).getEdgeData a b =
+      if a = s ∧ b = t ∧ (g.getEdgeData s t).isSome = true then some d else g.getEdgeData a b) ∧
+    (g.setEdgeData s t d).nodes = g.nodes :=
+  ⟨getEdgeData_setEdgeData g s t d, rfl⟩
+
+/-! ### first-insertion order: refinement of the abstract edge-set specification -/
+
+/-- Every operation commutes with the abstraction function. -/
+theorem C11_refines_spec_step (g : Dag N E) (h : g.Inv) (op : GOp N E) :
+    (g.step op).abs = g.abs.step op := abs_step h op
+
+/-- The model computes what the specification computes: live nodes with data in creation order,
+outgoing and incoming edges with data in order of first insertion. -/
+theorem C11_refines_spec (ops : List (GOp N E)) : (Dag.run ops).abs = SpecG.run ops := abs_run ops
+
+/-- In the abstraction, incoming and outgoing lists describe the same edges with the same data. -/
+theorem C11_incoming_matches_outgoing (ops : List (GOp N E)) (s t : Nat) (d : E) :
+    (s, d) ∈ (SpecG.run ops).inc t ↔ (t, d) ∈ (SpecG.run ops).out s := by
+  rw [← abs_run]; exact abs_inc_iff_out (C10_inv_reachable ops).toWF s t d
+
+/-! ### non-vacuity -/
+
+/-- Six nodes with data `10..15`.  Edges in insertion order `2→3, 1→3, 0→2, 0→1, 3→4, 5→0`
+(data `100..105`): a diamond `0 → {2, 1} → 3` with a tail `3 → 4`, and `5 → 0`, whose insertion
+forces a rank reorder (node 5 moves to rank 1). -/
+def c11Ops : List (GOp Nat Nat) :=
+  [.addNode 10, .addNode 11, .addNode 12, .addNode 13, .addNode 14, .addNode 15,
+    .addEdge 2 3 100, .addEdge 1 3 101, .addEdge 0 2 102, .addEdge 0 1 103, .addEdge 3 4 104,
+    .addEdge 5 0 105]
+
+def c11Sample : Dag Nat Nat := Dag.run c11Ops
+
+example : c11Sample.ids = [0, 1, 2, 3, 4, 5] ∧ c11Sample.ranks = [2, 3, 4, 5, 6, 1] := by decide
+
+/-- Adjacency in order of first insertion, with the data of that insertion. -/
+example : c11Sample.outgoingEdges 0 = [(2, 102), (1, 103)] ∧
+    c11Sample.incomingEdges 3 = [(2, 100), (1, 101)] := by decide
+
+/-- Re-adding the existing edge `0 → 2` with other data: `.ok false`, adjacency order and data
+unchanged on both sides. -/
+example :
+    (c11Sample.addEdge 0 2 999).2 = .ok false ∧
+    (c11Sample.addEdge 0 2 999).1.outgoingEdges 0 = [(2, 102), (1, 103)] ∧
+    (c11Sample.addEdge 0 2 999).1.incomingEdges 2 = [(0, 102)] ∧
+    (c11Sample.addEdge 0 2 999).1.getEdgeData 0 2 = some 102 ∧
+    (c11Sample.addEdge 0 2 999).1.ranks = c11Sample.ranks :=
+  ⟨rfl, by decide, by decide, by decide, by decide⟩
+
+/-- The same through the (non-computable) specification: after re-adding `0 → 2` and then removing
+`0 → 1`, the specification's lists are what the model computes. -/
+example :
+    (SpecG.run (c11Ops ++ [.addEdge 0 2 999])).out 0 = [(2, 102), (1, 103)] ∧
+    (SpecG.run (c11Ops ++ [.addEdge 0 2 999])).inc 3 = [(2, 100), (1, 101)] ∧
+    (SpecG.run (c11Ops ++ [.addEdge 0 2 999, .removeEdge 0 1])).out 0 = [(2, 102)] ∧
+    (SpecG.run c11Ops).nodes = [(0, 10), (1, 11), (2, 12), (3, 13), (4, 14), (5, 15)] := by
+  simp only [← C11_refines_spec]; decide
+
+/-- Descendants of the diamond: each node once; the sorted variant in ascending rank (`1` before
+`2` although `2` was inserted first), the unsorted one in DFS order with ranks attached. -/
+example :
+    c11Sample.descendants 0 = some [1, 2, 3, 4] ∧
+    c11Sample.descendants 5 = some [0, 1, 2, 3, 4] ∧
+    c11Sample.descendantsUnsorted 0 = some [(3, 1), (5, 3), (6, 4), (4, 2)] ∧
+    c11Sample.descendants 7 = none := by decide
+
+/-- Reachability and comparison. -/
+example :
+    c11Sample.containsTransitiveEdge 5 4 = true ∧ c11Sample.containsTransitiveEdge 4 5 = false ∧
+    c11Sample.containsEdge 5 4 = false ∧ c11Sample.topoCmp 5 4 = some .lt := by decide
+
+/-- Removals remove exactly what they should. -/
+example :
+    (c11Sample.removeEdge 0 2).2 = some 102 ∧
+    (c11Sample.removeEdge 0 2).1.outgoingEdges 0 = [(1, 103)] ∧
+    (c11Sample.removeOutgoingEdgesOfNode 0).2 = some [(2, 102), (1, 103)] ∧
+    (c11Sample.removeOutgoingEdgesOfNode 0).1.incomingEdges 1 = [] ∧
+    (c11Sample.removeNode 3).1.outgoingEdges 1 = [] ∧
+    (c11Sample.removeNode 3).1.incomingEdges 4 = [] ∧
+    (c11Sample.removeNode 3).1.ranks = [2, 3, 4, 5, 1] := by decide
+
 end PieModel
